@@ -29,6 +29,15 @@ PANIC = re.compile(r"::Result::<T, E>::(unwrap|expect|unwrap_err|expect_err|unwr
 TRY = re.compile(r"::Try>?::branch$")
 
 
+def _shared_ref(ty):
+    """`&T`, `Option<&T>` … (not `&mut`): the callee can look at the value but cannot consume it."""
+    ty = ty.strip()
+    for pre in ("std::option::Option<", "std::pin::Pin<"):
+        if ty.startswith(pre):
+            ty = ty[len(pre):]
+    return ty.startswith("&") and not ty.startswith("&mut")
+
+
 def split_generic(ty):
     """'a::B<X, Y<Z>>' -> ('a::B', ['X', 'Y<Z>'])"""
     i = ty.find("<")
@@ -226,7 +235,13 @@ class ResultFlow:
                                         changed = True
                                     add_cons("adaptor", bi, name)
                                 else:
-                                    add_cons("escape:%s" % name, bi, "/".join(rest))
+                                    aty = (t.get("arg_tys") or [""] * (ai + 1))[ai] if ai < len(t.get("arg_tys") or []) else ""
+                                    if _shared_ref(aty):
+                                        # handed out by shared reference: it can be looked at but not
+                                        # consumed; the owner still has to deal with it
+                                        add_cons("borrowed:%s" % name.split("::")[-1], bi, "/".join(rest))
+                                    else:
+                                        add_cons("escape:%s" % name, bi, "/".join(rest))
                                 continue
                             if TRY.search(gen):
                                 add_cons("try", bi, name)
@@ -237,7 +252,11 @@ class ResultFlow:
                             elif PANIC.search(gen):
                                 add_cons("panic:%s" % gen.split("::")[-1], bi, name)
                             else:
-                                add_cons("escape:%s" % name, bi, "")
+                                aty = (t.get("arg_tys") or [])[ai] if ai < len(t.get("arg_tys") or []) else ""
+                                if _shared_ref(aty):
+                                    add_cons("borrowed:%s" % name.split("::")[-1], bi, "")
+                                else:
+                                    add_cons("escape:%s" % name, bi, "")
             # whole-value flows into the return place
             for (tl, tp) in tracked:
                 if tl == 0:
@@ -274,8 +293,8 @@ class ResultFlow:
                     continue
                 ok = self._err_arm_returns_err(body, cfg, err_target, bj)
                 add_cons("match-ok" if ok else "match-swallow", bj, "err arm bb%d" % err_target)
-        if not consumers:
-            consumers.append({"class": "unused", "bb": -1, "detail": ""})
+        if not [c for c in consumers if not c["class"].startswith("borrowed:")]:
+            consumers.append({"class": "unused", "bb": -1, "detail": "only borrowed, never consumed" if consumers else ""})
         return consumers
 
     def _is_enum(self, path):
